@@ -1098,9 +1098,9 @@ pub fn gen_c18(thorough: bool, seed: u64) -> Vec<Episode> {
     // the same function listed two or three times (n = 3): the forms trade term gates against join gates, which are
     // now paid per copy; the specification has the exact optimum (single-output optimum with the join cost multiplied)
     {
-        let cnt = if thorough { 256 } else { 63 };
+        let cnt = if thorough { 512 } else { 150 };
         for i in 0..cnt {
-            let f: u64 = if thorough { i as u64 } else { [0x16u64, 0x7e, 0xbd, 0xdb, 0xe7, 0x69, 0x96, 0xe8, 0x17][i % 9] ^ ((i / 9) as u64 * 0x24) };
+            let f: u64 = if thorough { (i % 256) as u64 } else if i < 45 { [0x16u64, 0x7e, 0xbd, 0xdb, 0xe7, 0x69, 0x96, 0xe8, 0x17][i % 9] ^ ((i / 9) as u64 * 0x24) } else { (i as u64 * 37 + 0x16) & 0xff };
             let copies = 2 + i % 2;
             let kind = ["esop", "sopes", "esop", "esop", "sop", "esop"][i % 6];
             let t = [(1, 1, 1), (1, 3, 2), (2, 1, 1), (1, 2, 3)][(i / 2) % 4];
